@@ -235,14 +235,15 @@ func (e *Engine) globalVar(st *State, o *types.Var) Value {
 	if iv, ok := v.(IfaceV); ok && isErrorType(o.Type()) {
 		// sentinel errors are non-nil and pairwise distinct
 		e.assumeGlobal(Ne(iv.ref, I(0)), "sentinel error is non-nil")
-		for oo, ov := range e.globals {
-			if ow, ok := ov.(IfaceV); ok && isErrorType(oo.Type()) {
+		for _, oo := range e.globalOrder {
+			if ow, ok := e.globals[oo].(IfaceV); ok && isErrorType(oo.Type()) {
 				e.assumeGlobal(Ne(iv.ref, ow.ref), "distinct sentinel errors")
 			}
 		}
 		e.noteAssumption("package-level error variables are non-nil, pairwise distinct and never reassigned")
 	}
 	e.globals[o] = v
+	e.globalOrder = append(e.globalOrder, o)
 	return v
 }
 
